@@ -35,7 +35,7 @@ SPEC = {
   'exes': ['drv_c15'],
   'rule': (
     'FrozenDict: a case is one history of 5-24 operations (user dict construction and mutation: newDict/newLeaf/'
-    'setKey/delKey; API: getitem/items/freeze/unfreeze/copy (add_or_replace a dict, a FrozenDict, or a MappingProxyType/ChainMap/UserDict view of one)/pop/pickle/tree_map/tree_unflatten and tree_map with FrozenDict-valued children, function and method forms) over '
+    'setKey/delKey; API: getitem/get(k[, default])/items()/values()/keys()/dict(fd)/{**fd}/len/in/iter/freeze/unfreeze/copy (add_or_replace a dict, a FrozenDict, or a MappingProxyType/ChainMap/UserDict view of one)/pop/pickle/tree_map/tree_unflatten and tree_map with FrozenDict-valued children, function and method forms) over '
     'nested dicts mixing dict / FrozenDict / int / None / str / tuple / list / ndarray leaves with aliased sub-dicts; '
     'non-trivial when it contains at least one FrozenDict creation and one later user mutation. Struct: a case is one '
     'random field layout (1-5 fields, data/meta mix, nested structs as data and as static values) with its replace / '
@@ -132,7 +132,7 @@ def _err(e, writing_frozen=False):
 def impl_step(roots, op):
   """Applies one op to the real objects. Returns 'ok' or an error enum; appends returned values to roots."""
   tag = op[0]
-  var = op[-1] if isinstance(op[-1], str) and op[-1] in ('fn', 'method', 'ctor') and len(op) > 1 else 'fn'
+  var = op[-1] if isinstance(op[-1], str) and op[-1] in ('fn', 'method', 'ctor', 'dict', 'splat', 'keys') and len(op) > 1 else 'fn'
   try:
     if tag == 'newDict':
       roots.append({})
@@ -152,11 +152,28 @@ def impl_step(roots, op):
         return _err(e, isinstance(tgt, FrozenDict))
     elif tag == 'getitem':
       roots.append(roots[op[1]][op[2]])
+    elif tag == 'get':
+      x = roots[op[1]]
+      if is_leafish(x):
+        raise TypeError('not a mapping')
+      dflt = leaf_obj(op[3])
+      # inherited Mapping.get, with the default given positionally / omitted when it is None
+      roots.append(x.get(op[2]) if dflt is None else x.get(op[2], dflt))
     elif tag == 'items':
       x = roots[op[1]]
       if is_leafish(x):
         raise TypeError('not a mapping')
-      vals = [v for _, v in x.items()] if var != 'method' else list(x.values())
+      how = op[2] if len(op) > 2 else 'fn'
+      if how == 'method':
+        vals = list(x.values())
+      elif how == 'dict':
+        vals = list(dict(x).values())
+      elif how == 'splat':
+        vals = list({**x}.values())
+      elif how == 'keys':
+        vals = [x[k] for k in x.keys()]
+      else:
+        vals = [v for _, v in x.items()]
       roots.extend(vals)
     elif tag == 'freeze':
       x = roots[op[1]]
@@ -429,9 +446,11 @@ def gen_history(rng, nops, hr):
       elif r < 0.46 and not big:
         x = pick('frozen') if (rng.random() < 0.5 and nf) else pick('dict')
         op = ['getitem', x, key_for(roots[x])]
+        if rng.random() < 0.5:
+          op = ['get', x, key_for(roots[x], 0.25), rng.choice([{'a': 3}, {'a': 3}, {'a': 44}, {'o': 46}])]
       elif r < 0.50 and not big:
         x = pick('frozen') if (rng.random() < 0.7 and nf) else pick('dict')
-        op = ['items', x, rng.choice(['fn', 'method'])]
+        op = ['items', x, rng.choice(['fn', 'method', 'dict', 'splat', 'keys'])]
       elif r < 0.64:
         x = pick('frozen') if (rng.random() < 0.3 and nf) else pick('dict')
         if rng.random() < 0.03:
@@ -578,6 +597,17 @@ def value_oracles(roots, rng, drv_reqs, meta):
   frs.sort(key=lambda x: 0 if any(isinstance(o, dict) and any(isinstance(v, FrozenDict) for v in o.values()) for o in gc.get_referents(x)) else 1)
   for fd in frs[:4]:
     c = strip(dump_impl(fd))
+    # read-only Mapping protocol: consistent with the contents and without effect (the snapshot checks follow)
+    try:
+      ks = list(fd.keys())
+      ok = (len(fd) == len(ks) == len(c['kvs']) and all(k in fd for k in ks) and '__nope__' not in fd and sorted(ks) == [k for k, _ in c['kvs']]
+            and list(iter(fd)) == ks and fd.get('__nope__') is None and fd.get('__nope__', 7) == 7 and len(list(fd.values())) == len(ks))
+    except Exception as e:
+      ok = 'raised ' + type(e).__name__
+    if ok is not True:
+      bad.append(('mapping-protocol-inconsistent', f'len / in / keys / iter / get(default) of a FrozenDict with contents {json.dumps(c)} are inconsistent: {ok}'))
+    if strip(dump_impl(fd)) != c:
+      bad.append(('frozen-changed:read-only-calls', f'read-only Mapping calls changed a FrozenDict with contents {json.dumps(c)}'))
     if _has_foreign(c):
       continue
     arr = has_array(c)
@@ -748,7 +778,7 @@ def history_stats(ctx, hr):
     if isinstance(r, FrozenDict):
       depth = max(depth, _depth(strip(dump_impl(r))))
   ctx.count('max_frozen_depth', depth)
-  first_fz = next((i for i, (op, st) in enumerate(zip(hr.ops, hr.steps)) if op[0] in ('freeze', 'copy', 'copyView', 'pop', 'pickle', 'treeMap', 'unflatten', 'getitem') and st['r'] == 'ok' and any(isinstance(x, FrozenDict) for x in hr.roots[: st['n']])), None)
+  first_fz = next((i for i, (op, st) in enumerate(zip(hr.ops, hr.steps)) if op[0] in ('freeze', 'copy', 'copyView', 'pop', 'pickle', 'treeMap', 'unflatten', 'getitem', 'get') and st['r'] == 'ok' and any(isinstance(x, FrozenDict) for x in hr.roots[: st['n']])), None)
   mutated_after = first_fz is not None and any(
     op[0] in ('setKey', 'delKey') and st['r'] == 'ok' for op, st in list(zip(hr.ops, hr.steps))[first_fz + 1 :]
   )
@@ -820,6 +850,10 @@ def run_histories(ctx, drv, n, replay_ops=None):
 
 
 def _model_op(op):
+  if op[0] == 'get':
+    return op[:4]
+  if op[0] == 'items':
+    return op[:2]
   if op[0] == 'unflatten':
     return op[:2]
   if op[0] == 'copyView':
@@ -851,7 +885,7 @@ def _catalogue(roots, hs):
     k = kind_of(roots[h])
     if k == 'leaf':
       continue
-    out += [['getitem', h, 'a'], ['getitem', h, 'zz'], ['items', h, 'fn'], ['freeze', h, 'ctor'], ['unfreeze', h, 'fn'],
+    out += [['getitem', h, 'a'], ['getitem', h, 'zz'], ['get', h, 'a', {'a': 3}], ['get', h, 'zz', {'a': 44}], ['items', h, 'fn'], ['freeze', h, 'ctor'], ['unfreeze', h, 'fn'],
             ['copy', h, None, 'fn'], ['copy', h, 0, 'fn'], ['copy', h, 4, 'method'], ['copyView', h, 0, 'proxy', 'method'],
             ['copyView', h, 0, 'chainmap', 'fn'], ['pop', h, 'a', 'method'], ['pop', h, 'zz', 'fn'],
             ['treeMap', h], ['setKey', h, 'n', 1], ['setKey', h, 'a', 4], ['delKey', h, 'a']]
